@@ -46,7 +46,15 @@ def meek_resolution(case, viol):
 
 
 def meek_s2_or_resolution(case, viol):
-    return meek_s2(case, viol) or meek_resolution(case, viol)
+    """F04.  A keep factor out of range or a negative tally is the known finding only under options outside stratum S1;
+    the crash signatures (ZeroDivisionError in the keep-factor update, post-count assertion) also when the failure
+    disappears with 12 more digits.  (A keep factor of 1.000000001 under default options was a different defect, F22:
+    it also disappears with more digits, so the resolution test must not cover that signature.)"""
+    if meek_s2(case, viol):
+        return True
+    if viol.get('sig', '').startswith('count-raises'):
+        return meek_resolution(case, viol)
+    return False
 
 
 def highres_ref_differs(case, viol):
